@@ -1,7 +1,7 @@
 (* Suites.v: entry points of the extracted model runner.  A case is a list of length-framed
    fields; the result is one line of bytes.  All parsing and printing is Gallina, so that the
    OCaml driver only moves bytes. *)
-From BCL Require Import Model.DumpLoad Model.Lexer.
+From BCL Require Import Model.DumpLoad Model.Lexer Model.Api.
 Open Scope N_scope.
 
 Definition sp : N := 32.
@@ -12,9 +12,30 @@ Definition show_value (v : value) : bytes :=
   | VNil => bs "n"
   | VBool b => bs (if b then "b1" else "b0")
   | VInt z => bs "i" ++ dec_of_Z z
-  | VFloat b => bs "f" ++ dec_of_N b
+  | VFloat b => if f_is_nan b then bs "fNaN" else bs "f" ++ dec_of_N b
   | VStr s => bs "s" ++ hex_of_bytes s
   | VBlock _ _ _ => bs "BLOCK"
+  end.
+
+(* canonical block text, the same as harness showBlock: keys sorted *)
+Fixpoint show_val (fuel : nat) (v : value) : bytes :=
+  match v with
+  | VBlock t n fs =>
+    match fuel with
+    | O => bs "B{...}"
+    | S f => bs "B{" ++ hex_of_bytes t ++ [58] ++ hex_of_bytes n ++
+             flat_map (fun kv => [32] ++ hex_of_bytes (fst kv) ++ [61] ++ show_val f (snd kv)) (sort_fields fs)
+             ++ bs "}"
+    end
+  | _ => show_value v
+  end.
+Definition show_block (v : value) : bytes := skipn 1 (show_val 64 v).
+Definition show_blocks (l : list value) : bytes := join [59] (map show_block l).
+Definition show_binding (b : binding) : bytes :=
+  match b with
+  | BNone => bs "none"
+  | BStruct v => bs "struct " ++ show_block v
+  | BSlice l => bs "slice " ++ show_blocks l
   end.
 
 Definition read_value (f : bytes) : value :=
@@ -84,6 +105,48 @@ Definition suite_linecol (c : bytes) : bytes :=
   | _ => bs "bad-case"
   end.
 
+Definition show_prog (p : prog) : bytes := show_parts (parts_of_prog p).
+Definition out_bytes (o : list (otag * bytes)) : bytes := flat_map snd o.
+Definition print_bytes (o : list (otag * bytes)) : bytes :=
+  flat_map (fun x => match fst x with OPrint => snd x | _ => [] end) o.
+Definition has_byte (c : N) (l : bytes) : bool := existsb (N.eqb c) l.
+
+(* interp: fields name, src, opts ("d","t","s" letters) *)
+Definition suite_interp (c : bytes) : bytes :=
+  match fields c with
+  | name :: src :: opts :: _ =>
+    let '(pr, io) := interpret name src (has_byte 100 opts) (has_byte 116 opts) (has_byte 115 opts) in
+    let lfs_ := g_lfs (pr_prog pr) in
+    match io with
+    | IModelFail w => bs "class=modelfail " ++ w
+    | IParseErr ds o =>
+        bs "class=parse out=" ++ hex_of_bytes (out_bytes o) ++ bs " log=" ++ hex_of_bytes (flat_map (diag_line lfs_) ds)
+    | IRun o rr =>
+        let warn := flat_map (fun w => bs "WARNING: line " ++ lc_format lfs_ (fst w) ++ bs ": " ++ snd w ++ [10]) (rr_warn rr) in
+        let cls := match rr_res rr with
+                   | VOk => bs "class=ok"
+                   | VErr pos msg => bs "class=runtime err=" ++ hex_of_bytes (bs "runtime error: line " ++ lc_format lfs_ pos ++ bs ": " ++ msg)
+                   | VInternal msg => bs "class=internal err=" ++ hex_of_bytes msg
+                   | VPanic k => bs "class=panic:" ++ panic_name k
+                   end in
+        cls ++ bs " out=" ++ hex_of_bytes (out_bytes o) ++ bs " log=" ++ hex_of_bytes warn
+        ++ bs " blocks=" ++ show_blocks (rr_blocks rr) ++ bs " binding=" ++ show_binding (rr_binding rr)
+        ++ bs " parts=" ++ show_prog (pr_prog pr)
+    end
+  | _ => bs "bad-case"
+  end.
+
+(* parsechunks: fields name, chunk1, chunk2, ... -> parts or diagnostics *)
+Definition suite_parse (c : bytes) : bytes :=
+  match fields c with
+  | name :: chunks =>
+    let pr := parse_chunks name chunks in
+    if pr_oof pr then bs "class=modelfail oof" else if pr_panic pr then bs "class=modelfail panic"
+    else if pr_ok pr then bs "class=ok parts=" ++ show_prog (pr_prog pr)
+    else bs "class=parse log=" ++ hex_of_bytes (flat_map (diag_line (g_lfs (pr_prog pr))) (pr_diags pr))
+  | _ => bs "bad-case"
+  end.
+
 Definition run_suite (name : bytes) (c : bytes) : bytes :=
   if bytes_eqb name (bs "dump") then suite_dump c
   else if bytes_eqb name (bs "load") then suite_load c
@@ -91,4 +154,6 @@ Definition run_suite (name : bytes) (c : bytes) : bytes :=
   else if bytes_eqb name (bs "uvarint") then suite_uvarint c
   else if bytes_eqb name (bs "lex") then suite_lex c
   else if bytes_eqb name (bs "linecol") then suite_linecol c
+  else if bytes_eqb name (bs "interp") then suite_interp c
+  else if bytes_eqb name (bs "parse") then suite_parse c
   else bs "unknown-suite".
